@@ -76,13 +76,17 @@ DateTimePat(k) ==
 
 (* ---- strings ---------------------------------------------------------- *)
 (* UTF-8 contents without NUL *)
+(* The sixth pattern is LONG (200 bytes): a size guard whose maximum was computed too small      *)
+(* rejects it, which strings of a few bytes never show.                                         *)
+LongStr == [j \in 1..200 |-> 97 + (j % 26)]
 StrPat(k) ==
-    LET c == k % 5 IN
+    LET c == k % 6 IN
     CASE c = 0 -> <<>>
       [] c = 1 -> <<97>>                               \* "a"
       [] c = 2 -> <<72, 101, 108, 108, 111>>           \* "Hello"
       [] c = 3 -> <<195, 169, 226, 130, 172>>          \* "e-acute euro"
       [] c = 4 -> <<240, 157, 132, 158, 32, 120>>      \* "G-clef x"
+      [] c = 5 -> LongStr
 
 Trunc(s, n) == IF n > 0 /\ Len(s) > n THEN SubSeq(s, 1, n) ELSE s
 
